@@ -455,6 +455,7 @@ type verifReq struct {
 	Proto       string              `json:"proto"`
 	TLS         bool                `json:"tls"`
 	ClientCerts int                 `json:"client_certs"`
+	Resumed     bool                `json:"resumed"`
 	ConnID      int64               `json:"conn_id"`
 	StartNs     int64               `json:"start_ns"`
 	EndNs       int64               `json:"end_ns"`
@@ -504,6 +505,7 @@ func verifE2E(op *verifOp, res *verifOut) {
 			Proto: r.Proto, TLS: r.TLS != nil, StartNs: int64(start)}
 		if r.TLS != nil {
 			rec.ClientCerts = len(r.TLS.PeerCertificates)
+			rec.Resumed = r.TLS.DidResume
 		}
 		rec.ConnID, _ = r.Context().Value(verifConnKey{}).(int64)
 		if len(body) <= 256 {
